@@ -96,6 +96,19 @@ class Sim:
         except (history.Violation, history.Abort):
             raise NotApplicable('lens construction is C01\'s business')
         self.lens = self.w.lens
+        # optional second lens: one problem may hold variables and operands
+        # on several optics
+        self.w2 = None
+        if self.hist.get('build2'):
+            w2 = history.World('C14', {})
+            try:
+                for op in self.hist['build2']:
+                    w2.step(op)
+            except (history.Violation, history.Abort):
+                raise NotApplicable('lens construction is C01\'s business')
+            if w2.model.n >= 3 and w2.model.wls and w2.model.aperture and \
+                    w2.model.fields:
+                self.w2 = w2
         m = self.w.model
         if m.n < 3 or not m.wls or m.aperture is None or not m.fields:
             raise NotApplicable('incomplete lens')
@@ -106,14 +119,15 @@ class Sim:
             for spec in self.hist['operands']:
                 self.problem.add_operand(spec['type'], spec['target'],
                                          spec['weight'],
-                                         operand_input(self.lens, spec))
+                                         operand_input(self.lens_of(spec),
+                                                       spec))
             self.vspecs = []
             for spec in self.hist['variables']:
                 if not self.var_applicable(spec):
                     continue
                 kw = var_kwargs(spec)
                 self.problem.add_variable(
-                    self.lens, spec['type'], min_val=spec.get('min'),
+                    self.lens_of(spec), spec['type'], min_val=spec.get('min'),
                     max_val=spec.get('max'),
                     apply_scaling=bool(spec.get('scaled', True)), **kw)
                 self.vspecs.append(spec)
@@ -132,16 +146,25 @@ class Sim:
         # the value just read.
         self.index_on_real_medium = any(
             spec['type'] == 'index' and
-            (m.surfs[spec['k']]['mat'][0] != 'ideal' or
-             (len(m.surfs[spec['k']]['mat']) > 2 and
-              m.surfs[spec['k']]['mat'][2] != 0))
-            and m.surfs[spec['k']]['mat'][0] != 'air'
+            (self.model_of(spec).surfs[spec['k']]['mat'][0] != 'ideal' or
+             (len(self.model_of(spec).surfs[spec['k']]['mat']) > 2 and
+              self.model_of(spec).surfs[spec['k']]['mat'][2] != 0))
+            and self.model_of(spec).surfs[spec['k']]['mat'][0] != 'air'
             for spec in self.vspecs)
         if self.index_on_real_medium:
             self.probe('index_variable_on_real_medium')
 
+    def lens_of(self, spec):
+        return self.w2.lens if spec.get('lens') and self.w2 else self.lens
+
+    def model_of(self, spec):
+        return self.w2.model if spec.get('lens') and self.w2 else \
+            self.w.model
+
     def var_applicable(self, spec):
-        m = self.w.model
+        if spec.get('lens') and not self.w2:
+            return False
+        m = self.model_of(spec)
         k = spec['k']
         t = spec['type']
         if not (0 <= k <= m.n - 1):
@@ -190,12 +213,17 @@ class Sim:
         """position round-off at the lens' current size (the optimiser may
         have driven a thickness to 1e14)"""
         z = [abs(f(v)) for v in self.lens.surface_group.positions]
+        if self.w2:
+            z += [abs(f(v)) for v in self.w2.lens.surface_group.positions]
         z = [v for v in z if math.isfinite(v)]
         return 1e-9 * (1.0 + max(z + [self.w.model.zscale]))
 
     def snapshot(self):
         with quiet(), warnings.catch_warnings():
             warnings.simplefilter('ignore')
+            if self.w2:
+                return [canon(self.lens.to_dict()),
+                        canon(self.w2.lens.to_dict())]
             return canon(self.lens.to_dict())
 
     def values(self):
@@ -207,7 +235,7 @@ class Sim:
         from optiland.optimization.variable import Variable
         spec = self.vspecs[j]
         with quiet():
-            h = Variable(self.lens, spec['type'], apply_scaling=False,
+            h = Variable(self.lens_of(spec), spec['type'], apply_scaling=False,
                          **var_kwargs(spec))
         return f(h.value)
 
@@ -645,7 +673,13 @@ class Sim:
             raise NotApplicable('unbounded')
         with quiet(), warnings.catch_warnings():
             warnings.simplefilter('ignore')
-            twin = Sim(self.prop, self.hist).build_world().lens
+            if spec.get('lens') and self.w2:
+                w2 = history.World('C14', {})
+                for op_ in self.hist['build2']:
+                    w2.step(op_)
+                twin = w2.lens
+            else:
+                twin = Sim(self.prop, self.hist).build_world().lens
             kw = var_kwargs(spec)
             hu = Variable(twin, spec['type'], apply_scaling=False, **kw)
             hs = Variable(twin, spec['type'],
@@ -684,7 +718,7 @@ class Sim:
                 warnings.simplefilter('ignore')
                 for j, spec in enumerate(self.hist['operands']):
                     fn = operand_registry.get(spec['type'])
-                    v = float(fn(**operand_input(self.lens, spec)))
+                    v = float(fn(**operand_input(self.lens_of(spec), spec)))
                     tot += (self.hist_weights[j] *
                             (v - self.hist_targets[j])) ** 2
         except Exception:
@@ -934,6 +968,41 @@ def run_one(prop, run_seed, run_index, cfg):
         o['target'] = ch.pick([0, 0.0, ch.rounded(cur * ch.uniform(0.8, 1.2)
                                                   + ch.uniform(-0.1, 0.1),
                                                   5)])
+    build2 = None
+    if ch.chance(0.2):
+        # a second, small lens in the same problem; its variables are
+        # interleaved with those of the first (A, B, A, ...)
+        build2, _m2 = lensgen.gen_lens(ch, set(ch.subset(
+            ['conic', 'finite_obj', 'planes'], 0.3)), nsurf=ch.randint(2, 3))
+        w2 = history.World('C14', {})
+        try:
+            for op in build2:
+                w2.step(op)
+            extra = []
+            for _ in range(ch.randint(1, 2)):
+                v = gen_variable(ch, w2.model)
+                if v is not None and v['type'] in ('radius', 'thickness',
+                                                   'conic') and not any(
+                        (e['type'], e['k']) == (v['type'], v['k'])
+                        for e in extra):
+                    v['lens'] = 1
+                    extra.append(v)
+            for j, v in enumerate(extra):
+                variables.insert(min(len(variables), 2 * j + 1), v)
+            o2 = gen_operand(ch, w2.model)
+            o2['lens'] = 1
+            try:
+                with quiet(), warnings.catch_warnings():
+                    warnings.simplefilter('ignore')
+                    cur = float(operand_registry.get(o2['type'])(
+                        **operand_input(w2.lens, o2)))
+            except Exception:
+                cur = 0.0
+            o2['target'] = ch.rounded((cur if math.isfinite(cur) else 0.0) *
+                                      ch.uniform(0.8, 1.2), 5)
+            operands.append(o2)
+        except (history.Violation, history.Abort):
+            build2 = None
     driver = 'stub' if ch.chance(cfg.get('p_stub', 0.6)) else 'real'
     steps = []
     nv = max(1, len(variables))
@@ -1010,7 +1079,8 @@ def run_one(prop, run_seed, run_index, cfg):
         else:
             steps.append({'op': k, 'var': ch.randint(0, nv - 1)})
     # pokes use values near the current one (in the variable's units)
-    hist = {'build': build, 'pre': pre, 'operands': operands,
+    hist = {'build': build, 'build2': build2, 'pre': pre,
+            'operands': operands,
             'variables': variables, 'steps': steps, 'driver': driver,
             'shrinkable': ['steps', 'pre', 'operands', 'variables']}
     res = execute(prop, hist)
